@@ -84,7 +84,44 @@ def invalid_lexeme_cases(rng):
     for bad in ('"\\q"', '"\\x4"', '"\\xg0"', '"\\u{110000}"', '"\\u{d800}"', "''", "'ab'", '"abc', "'a", '0x', '0b', '12abc', '1u7', '0xffzz', '@', '$', '`', '#',
                 '"\\u{41"', "'\\u{41'", '"\\u{20ac x"', '"\\u41"', '1bool', '65char8', '0void', '0b1bool', '0x1void', '1i63', '1u', '1I32', '1f32', '1usiz', '1i1288'):
         out.append(('var x = %s;' % bad, 'invalid lexeme %s' % bad))
-    return out
+    # literals with TWO faults: a first fault inside, and no closing quote; the first fault is the one that is reported
+    for q in ('"', "'"):
+        for first, code in (('\\q', 162), ('\\x4', 162), ('\\u{110000}', 162), ('\x01', 110), ('a\\zb', 162) if q == '"' else ('\\z', 162)):
+            for tail in ('', ';', ' + 1;'):
+                src = 'var x = %s%s%s' % (q, first, tail)
+                out.append((src, 'a literal with the fault %r and no closing quote' % first, code))
+    return [c if len(c) == 3 else (c[0], c[1], None) for c in out]
+
+
+ALPHA_CODES = {'UnexpectedZeroByteFile': 101, 'TooManySourceBytes': 102, 'TooManyTokens': 103, 'UnexpectedCharacter': 110, 'InvalidIntegerLength': 140,
+               'InvalidIntegerTypeSuffix': 141, 'MissingClosingQuote': 160, 'UnexpectedTrailingBackslash': 161, 'InvalidEscapeSequence': 162, 'InvalidCharLiteral': 163}
+
+
+def _inv(case):
+    src, what, first_code = case
+    rd = replayrun.run('deltatok', src.encode('utf-8'), timeout=20)
+    ra = replayrun.run('alphatok', src.encode('utf-8'), timeout=20)
+    bad = []
+    if rd.get('status') == 'ok' and rd['result'].get('errors', '[]') == '[]':
+        bad.append('the second-generation lexer reports no error')
+    if ra.get('status') == 'ok' and 'err:' not in ra['result'].get('toks', ''):
+        bad.append('the first-generation lexer reports no error')
+    if not bad and rd.get('status') == 'ok' and ra.get('status') == 'ok':
+        # the same lexical grammar: both lexers name the same faults, in the same order
+        import re
+        dc = [int(c) for c in rd['result'].get('errors', '[]').strip('[]').split(',') if c]
+        kinds = re.findall(r'err:(\w+)', ra['result'].get('toks', ''))
+        ac = [ALPHA_CODES.get(k) for k in kinds]
+        if None not in ac and ac != dc:
+            bad.append('the first-generation lexer reports %s (%s), the second-generation lexer %s' % (ac, ','.join(kinds), dc))
+        if first_code is not None and (dc[:1] != [first_code] or ac[:1] != [first_code]):
+            bad.append('the first fault of the literal is E%d; reported: first generation %s, second generation %s' % (first_code, ac, dc))
+    return (src, what, rd, ra, bad) if bad else None
+
+
+
+def _pair_disagrees(case):
+    return _inv(case) is not None
 
 
 def search(deadline, rng, newline='\n', only_invalid=False):
@@ -100,16 +137,7 @@ def search(deadline, rng, newline='\n', only_invalid=False):
         r.pop('_source', None)
         return (src, exp, r, m) if m else None
 
-    def inv(case):
-        src, what = case
-        rd = replayrun.run('deltatok', src.encode('utf-8'), timeout=20)
-        ra = replayrun.run('alphatok', src.encode('utf-8'), timeout=20)
-        bad = []
-        if rd.get('status') == 'ok' and rd['result'].get('errors', '[]') == '[]':
-            bad.append('the second-generation lexer reports no error')
-        if ra.get('status') == 'ok' and 'err:' not in ra['result'].get('toks', ''):
-            bad.append('the first-generation lexer reports no error')
-        return (src, what, rd, ra, bad) if bad else None
+    inv = _inv
 
     with cf.ThreadPoolExecutor(12) as ex:
         for hit in ex.map(inv, invalid_lexeme_cases(rng)):
@@ -117,7 +145,7 @@ def search(deadline, rng, newline='\n', only_invalid=False):
                 src, what, rd, ra, bad = hit
                 return {'mode': 'deltatok', 'input_utf8_lossy': src, 'input_hex': src.encode('utf-8').hex(), 'observed': {'delta': rd, 'alpha': ra},
                         'expected': '%s: every input containing an invalid lexeme is rejected by both lexers; %s' % (what, '; '.join(bad)),
-                        'expect_lex_error': True, 'how': 'replay_runner deltatok / alphatok <file>'}
+                        'expect_lex_error': True, 'expect_lexers_agree': True, 'how': 'replay_runner deltatok / alphatok <file>'}
         while time.time() < deadline and not only_invalid:
             cases = [A.gen_source(rng, rng.choice([1, 1, 2, 3, 6]), newline) for _ in range(96)]
             for hit in ex.map(one, cases):
@@ -130,6 +158,14 @@ def search(deadline, rng, newline='\n', only_invalid=False):
 
 
 def replay_fails(w, r):
+    if w.get('expect_lexers_agree'):
+        # re-run the pair of lexers on the stored input
+        src = bytes.fromhex(w['input_hex']).decode('utf-8', 'replace')
+        import random
+        for case in invalid_lexeme_cases(random.Random(0)):
+            if case[0] == src:
+                return _pair_disagrees(case)
+        return _pair_disagrees((src, 'stored input', None))
     if w.get('expect_lex_error'):
         return r.get('status') == 'ok' and r['result'].get('errors', '[]') == '[]'
     exp = [(0, 0, 0, None)] * 0
